@@ -166,11 +166,27 @@ struct UnitCfg {
 	tail: String,
 	#[serde(default)]
 	item: Vec<ItemCfg>,
+	/// lemmas over the contracts of this unit: `proof fn` with labelled (and mode-selectable) clauses
+	#[serde(default)]
+	lemma: Vec<LemmaCfg>,
 	#[serde(default)]
 	include: Vec<IncludeRef>,
 	/// (include files) the unit in which the contracts of this file are proved
 	#[serde(default)]
 	home: Option<String>,
+}
+
+#[derive(Deserialize, Clone, Debug)]
+struct LemmaCfg {
+	name: String,
+	params: String,
+	#[serde(default)]
+	requires: Vec<Clause>,
+	#[serde(default)]
+	ensures: Vec<Clause>,
+	#[serde(default)]
+	decreases: Option<String>,
+	body: String,
 }
 
 #[derive(Deserialize, Clone, Debug)]
@@ -1751,7 +1767,33 @@ fn main() {
 		ctx.out.buf.push_str(&cfg.tail);
 		ctx.out.buf.push('\n');
 	}
-	if !raw { ctx.out.buf.push_str("\n} // verus!\nfn main() {}\n"); }
+	if !raw {
+		for l in &cfg.lemma {
+			ctx.out.buf.push_str(&format!("// ---- lemma over the contracts above (hand-written proof; clauses from the sidecar)\npub proof fn {}({})\n", l.name, l.params));
+			for (kw, cls) in [("requires", &l.requires), ("ensures", &l.ensures)] {
+				let act: Vec<&Clause> = cls.iter().filter(|c| c.active(&mode)).collect();
+				if act.is_empty() {
+					continue;
+				}
+				ctx.out.buf.push_str(&format!("    {}\n", kw));
+				for c in act {
+					ctx.out.buf.push_str("        ");
+					let st = ctx.out.buf.len();
+					ctx.out.buf.push_str(&oneline(c.text()));
+					let en = ctx.out.buf.len();
+					ctx.out.buf.push_str(",\n");
+					ctx.out.marks.push(MarkInfo { kind: kw.to_string(), func: l.name.clone(), label: c.label(), props: c.props(), text: c.text().to_string(), out_start: st, out_end: en });
+				}
+			}
+			if let Some(d) = &l.decreases {
+				ctx.out.buf.push_str(&format!("    decreases {},\n", d));
+			}
+			ctx.out.buf.push_str("{\n");
+			ctx.out.buf.push_str(&l.body);
+			ctx.out.buf.push_str("\n}\n");
+		}
+		ctx.out.buf.push_str("\n} // verus!\nfn main() {}\n");
+	}
 
 	std::fs::write(&out_path, &ctx.out.buf).unwrap_or_else(|e| die(&format!("{}: {}", out_path, e)));
 
